@@ -38,6 +38,8 @@ static int regions_enveloped(const uint8_t *m, size_t n, region_t *r, int max) {
 	/* encryptedContentInfo (3rd child): SEQ { OID, alg SEQ { OID, iv OCTET STRING }, [0] IMPLICIT ciphertext } */ { der_cur f[6]; int ft[6]; size_t fo[6]; int nf = walk_children(m, k[2].p, k[2].n, f, ft, fo, 6); if (nf >= 3) { der_cur a[3]; int at[3]; size_t ao[3]; int na = walk_children(m, f[1].p, f[1].n, a, at, ao, 3); if (na >= 2 && at[1] == 0x04 && nr < max) { r[nr].off = (size_t)(a[1].p - m); r[nr].len = a[1].n; r[nr].name = "iv"; nr++; } if ((ft[2] & 0xdf) == 0x80 && nr < max) { r[nr].off = (size_t)(f[2].p - m); r[nr].len = f[2].n; r[nr].name = "ciphertext"; nr++; } } }
 	return nr; }
 static int in_region(const region_t *r, int nr, size_t byte, const char **name) { for (int i = 0; i < nr; i++) if (byte >= r[i].off && byte < r[i].off + r[i].len) { *name = r[i].name; return 1; } return 0; }
+/* the tag and length octets in front of a named field belong to that field ("any bit of ... ciphertext"): region "<name>-header" */
+static int in_header(const region_t *r, int nr, size_t byte, const char **name) { static char nm[8][40]; static int rot; for (int i = 0; i < nr; i++) { size_t h = 1 + (r[i].len < 128 ? 1 : r[i].len < 256 ? 2 : 3); if (r[i].off >= h && byte >= r[i].off - h && byte < r[i].off) { char *o = nm[rot++ & 7]; snprintf(o, 40, "%s-header", r[i].name); *name = o; return 1; } } return 0; }
 static int content_matches(int ctype, const uint8_t *c, size_t cl, const uint8_t *want, size_t wl) { if (ctype == OID_cms_data) { /* verify side hands back the OCTET STRING TLV or the raw value */ if (cl == wl && !memcmp(c, want, wl)) return 1; der_cur k = { c, cl }; int tag; const uint8_t *v; size_t vl; if (der_tlv(&k, &tag, &v, &vl, NULL) && tag == 0x04 && k.n == 0 && vl == wl && !memcmp(v, want, wl)) return 1; return wl == 0 && cl == 0; } return cl == wl && !memcmp(c, want, wl); }
 
 static void blk_sign(void) {
@@ -53,8 +55,10 @@ static void blk_sign(void) {
 		/* every signer info must be made by the corresponding signer: count SignerInfos and verify each against its own certificate only */
 		{ region_t rg[12]; int nr = regions_signed(MSG, ml, rg, 12); int nsig = 0; for (int i = 0; i < nr; i++) if (!strcmp(rg[i].name, "signature")) nsig++; if (nsig != ns) { snprintf(key, sizeof key, "C16:sign:signer-info-count"); vh_viol(key, "\"signers\":%d,\"infos\":%d", ns, nsig); }
 			/* tamper: content <= 17 bytes: every single-bit flip; inside content/signature => must fail */
-			if (n <= 17 && (kv == 0 || vh_thorough)) { static uint8_t m2[8000]; for (size_t bit = 0; bit < ml * 8; bit++) { const char *rn; if (!in_region(rg, nr, bit / 8, &rn)) { vh_evals++; continue; } memcpy(m2, MSG, ml); m2[bit / 8] ^= (uint8_t)(1 << (bit % 8));
-				r = cms_verify(m2, ml, NULL, 0, NULL, 0, &ct, &c, &cl, &certs, &certl, &crls, &crll, &sis, &sil); vh_eval(vh_hash(kk, sizeof kk, 1000 + bit)); if (r == 1) { snprintf(key, sizeof key, "C16:sign:bitflip-accepted:%s", rn); vh_viol(key, "\"signers\":%d,\"len\":%zu,\"bit\":%zu", ns, n, bit); } } } }
+			if (n <= 17 && (kv == 0 || vh_thorough)) { static uint8_t m2[8000]; for (size_t bit = 0; bit < ml * 8; bit++) { const char *rn = NULL; int must = in_region(rg, nr, bit / 8, &rn) || in_header(rg, nr, bit / 8, &rn); if (!must && !(vh_thorough || (ns <= 2 && li == 1))) { vh_evals++; continue; } /* quick tier: the bits outside the named fields with one content length, 1-2 signers */ memcpy(m2, MSG, ml); m2[bit / 8] ^= (uint8_t)(1 << (bit % 8)); ct = -7; c = NULL; cl = 0xdead;
+				r = cms_verify(m2, ml, NULL, 0, NULL, 0, &ct, &c, &cl, &certs, &certl, &crls, &crll, &sis, &sil); vh_eval(vh_hash(kk, sizeof kk, 1000 + bit)); if (r == 1 && must) { snprintf(key, sizeof key, "C16:sign:bitflip-accepted:%s", rn); vh_viol(key, "\"signers\":%d,\"len\":%zu,\"bit\":%zu", ns, n, bit); }
+				/* any other bit of the message: if the message still verifies, what it hands back must be the signed content */
+				else if (r == 1 && (ct != OID_cms_data || !c || !content_matches(ct, c, cl, CONTENT, n))) { vh_viol("C16:sign:bitflip-accepted-with-altered-content:structure", "\"signers\":%d,\"len\":%zu,\"bit\":%zu,\"byte\":%zu", ns, n, bit, bit / 8); } } } }
 		/* a message whose signature was made by the wrong key: swap certificate order vs keys */
 		if (ns >= 2 && li == 1) { CMS_CERTS_AND_KEY bad[NP]; for (int i = 0; i < ns; i++) { bad[i] = sg[i]; } bad[0].sign_key = &SKEY[1][kv]; bad[1].sign_key = &SKEY[0][kv]; size_t bl = 0; static uint8_t bm[9000]; if (cms_sign(bm, &bl, bad, ns, OID_cms_data, CONTENT, n, NULL, 0) == 1) { r = cms_verify(bm, bl, NULL, 0, NULL, 0, &ct, &c, &cl, &certs, &certl, &crls, &crll, &sis, &sil); vh_eval(vh_hash(kk, sizeof kk, 5)); if (r == 1) vh_viol("C16:sign:wrong-key-signature-verifies", "\"signers\":%d", ns); } }
 		vh_sample("{\"block\":\"sign-verify\",\"signers\":%d,\"key_origin\":%d,\"content_len\":%zu,\"cms_len\":%zu}", ns, kv, n, ml);
@@ -85,10 +89,11 @@ static void blk_envelop(void) {
 		/* recipient certificate of one party with the key of another */
 		{ int ct; size_t ol; const uint8_t *ri, *s1, *s2; size_t ril, s1l, s2l; r = cms_deenvelop(MSG, ml, &RKEY[(0 + 1) % NP][0], RCERT[0], RCL[0], &ct, OUT, &ol, &ri, &ril, &s1, &s1l, &s2, &s2l); vh_eval(vh_hash(kk, sizeof kk, 200)); if (r == 1) vh_viol("C16:envelop:key-cert-mismatch-opens", "\"recipients\":%d", nr_); }
 		if (n <= 17 && n >= 1) { region_t rg[12]; int nr = regions_enveloped(MSG, ml, rg, 12); static uint8_t m2[9000]; if (nr < 3) { vh_viol("C16:envelop:walker-cannot-locate-fields", "\"nr\":%d", nr); continue; }
-			for (size_t bit = 0; bit < ml * 8; bit++) { const char *rn; if (!in_region(rg, nr, bit / 8, &rn)) { vh_evals++; continue; } memcpy(m2, MSG, ml); m2[bit / 8] ^= (uint8_t)(1 << (bit % 8)); int ct; size_t ol = 0; const uint8_t *ri, *s1, *s2; size_t ril, s1l, s2l;
+			for (size_t bit = 0; bit < ml * 8; bit++) { const char *rn = ""; int must = in_region(rg, nr, bit / 8, &rn) || in_header(rg, nr, bit / 8, &rn); if (!must && !(vh_thorough || (nr_ <= 2 && li == 1))) { vh_evals++; continue; } memcpy(m2, MSG, ml); m2[bit / 8] ^= (uint8_t)(1 << (bit % 8)); int ct = -7; size_t ol = 0xdead; const uint8_t *ri, *s1, *s2; size_t ril, s1l, s2l; memset(OUT, 0xEE, n + 64);
 				/* opened by the LAST recipient so that flips in earlier recipients' encrypted keys are "another recipient's field": only own key / iv / ciphertext are demanded */
 				int who = 0; r = cms_deenvelop(m2, ml, &RKEY[who][0], RCERT[who], RCL[who], &ct, OUT, &ol, &ri, &ril, &s1, &s1l, &s2, &s2l); vh_eval(vh_hash(kk, sizeof kk, 1000 + bit));
-				int own = strcmp(rn, "encrypted-key") || (bit / 8 >= rg[0].off && bit / 8 < rg[0].off + rg[0].len); if (r == 1 && own) { snprintf(key, sizeof key, "C16:envelop:bitflip-accepted:%s", rn); vh_viol(key, "\"recipients\":%d,\"len\":%zu,\"bit\":%zu,\"content_changed\":%d", nr_, n, bit, ol != n || memcmp(OUT, CONTENT, n) != 0); } } }
+				size_t h0 = 1 + (rg[0].len < 128 ? 1 : rg[0].len < 256 ? 2 : 3); int own = strncmp(rn, "encrypted-key", 13) || (bit / 8 >= rg[0].off - h0 && bit / 8 < rg[0].off + rg[0].len); if (r == 1 && must && own) { snprintf(key, sizeof key, "C16:envelop:bitflip-accepted:%s", rn); vh_viol(key, "\"recipients\":%d,\"len\":%zu,\"bit\":%zu,\"content_changed\":%d", nr_, n, bit, ol != n || memcmp(OUT, CONTENT, n) != 0); }
+				else if (r == 1 && !(must && own) && (ol != n || memcmp(OUT, CONTENT, n))) { /* the content TYPE inside EncryptedContentInfo is not protected by anything in this format and not named by the property: not compared */ vh_viol("C16:envelop:bitflip-accepted-with-altered-content:structure", "\"recipients\":%d,\"len\":%zu,\"bit\":%zu,\"byte\":%zu,\"outlen\":%zu", nr_, n, bit, bit / 8, ol); } } }
 		vh_sample("{\"block\":\"envelop\",\"recipients\":%d,\"content_len\":%zu,\"cms_len\":%zu}", nr_, n, ml);
 	}
 }
@@ -99,7 +104,8 @@ static void blk_encrypt(void) {
 		int alg, ct; size_t ol = 0; const uint8_t *s1, *s2; size_t s1l, s2l; r = cms_decrypt(MSG, ml, &alg, SK, 16, &ct, OUT, &ol, &s1, &s1l, &s2, &s2l); vh_eval(vh_mix(n + 41)); if (r != 1 || ol != n || memcmp(OUT, CONTENT, n)) vh_viol("C16:encrypt:roundtrip", "\"len\":%zu,\"ret\":%d", n, r);
 		uint8_t k2[16]; memcpy(k2, SK, 16); k2[5] ^= 1; r = cms_decrypt(MSG, ml, &alg, k2, 16, &ct, OUT, &ol, &s1, &s1l, &s2, &s2l); vh_eval(vh_mix(n + 51)); if (r == 1 && ol == n && !memcmp(OUT, CONTENT, n)) vh_viol("C16:encrypt:wrong-key-opens", "\"len\":%zu", n);
 		if (n >= 1 && n <= 17) { /* EncryptedData = ContentInfo{ SEQ{version, EncryptedContentInfo} } */ const uint8_t *ed; size_t el; if (open_ci(MSG, ml, &ed, &el)) { der_cur k[4]; int t[4]; size_t o[4]; int nk = walk_children(MSG, ed, el, k, t, o, 4); region_t rg[4]; int nr = 0; if (nk >= 2) { der_cur f[6]; int ft[6]; size_t fo[6]; int nf = walk_children(MSG, k[1].p, k[1].n, f, ft, fo, 6); if (nf >= 3) { der_cur a[3]; int at[3]; size_t ao[3]; int na = walk_children(MSG, f[1].p, f[1].n, a, at, ao, 3); if (na >= 2) { rg[nr].off = (size_t)(a[1].p - MSG); rg[nr].len = a[1].n; rg[nr].name = "iv"; nr++; } rg[nr].off = (size_t)(f[2].p - MSG); rg[nr].len = f[2].n; rg[nr].name = "ciphertext"; nr++; } }
-			static uint8_t m2[4000]; for (size_t bit = 0; bit < ml * 8; bit++) { const char *rn; if (!in_region(rg, nr, bit / 8, &rn)) { vh_evals++; continue; } memcpy(m2, MSG, ml); m2[bit / 8] ^= (uint8_t)(1 << (bit % 8)); r = cms_decrypt(m2, ml, &alg, SK, 16, &ct, OUT, &ol, &s1, &s1l, &s2, &s2l); vh_eval(vh_mix(n * 100000 + bit + 61)); if (r == 1) { snprintf(key, sizeof key, "C16:encrypt:bitflip-accepted:%s", rn); vh_viol(key, "\"len\":%zu,\"bit\":%zu", n, bit); } } } }
+			static uint8_t m2[4000]; for (size_t bit = 0; bit < ml * 8; bit++) { const char *rn = ""; int must = in_region(rg, nr, bit / 8, &rn) || in_header(rg, nr, bit / 8, &rn); memcpy(m2, MSG, ml); m2[bit / 8] ^= (uint8_t)(1 << (bit % 8)); memset(OUT, 0xEE, n + 64); ol = 0xdead; ct = -7; r = cms_decrypt(m2, ml, &alg, SK, 16, &ct, OUT, &ol, &s1, &s1l, &s2, &s2l); vh_eval(vh_mix(n * 100000 + bit + 61)); if (r == 1 && must) { snprintf(key, sizeof key, "C16:encrypt:bitflip-accepted:%s", rn); vh_viol(key, "\"len\":%zu,\"bit\":%zu", n, bit); }
+				else if (r == 1 && (ol != n || memcmp(OUT, CONTENT, n))) { vh_viol("C16:encrypt:bitflip-accepted-with-altered-content:structure", "\"len\":%zu,\"bit\":%zu,\"byte\":%zu,\"outlen\":%zu", n, bit, bit / 8, ol); } } } }
 	}
 	/* set_data */
 	for (int li = 0; li < 7; li++) { if (!vh_next()) continue; size_t n = CLEN[li], ml = 0; int r = cms_set_data(MSG, &ml, CONTENT, n); vh_eval(vh_mix(n + 71)); int ct; const uint8_t *c; size_t cl; const uint8_t *cp = MSG; size_t il = ml; if (r != 1) { if (n) vh_viol("C16:set_data:refused", "\"len\":%zu", n); continue; } if (cms_content_info_from_der(&ct, &c, &cl, &cp, &il) != 1 || ct != OID_cms_data || il || !content_matches(ct, c, cl, CONTENT, n)) vh_viol("C16:set_data:roundtrip", "\"len\":%zu", n); }
